@@ -136,4 +136,53 @@ theorem cov_refines (d : Nat) : ∀ (h : Hist (Nat × Mat)) (s : CovS), eval cov
     exact cov_mrg_fold d ss ls hss s l hs
 
 
+/-! ### Max / Min -/
+
+/-- representation invariant of `Max` / `Min`: `none` before any data, otherwise the extremum of the live data. -/
+def ExtR (IsExt : List Q → Q → Prop) (s : Option Q) (l : List (List Q)) : Prop :=
+  match s with
+  | none => l.flatten = []
+  | some m => IsExt l.flatten m
+
+theorem extR_opick (pick : Q → Q → Q) (IsExt : List Q → Q → Prop)
+    (happ : ∀ l₁ l₂ a b, IsExt l₁ a → IsExt l₂ b → IsExt (l₁ ++ l₂) (pick a b))
+    {s t : Option Q} {l lt : List (List Q)} (hs : ExtR IsExt s l) (ht : ExtR IsExt t lt) :
+    ExtR IsExt (opick pick s t) (l ++ lt) := by
+  cases s with
+  | none =>
+    simp only [ExtR] at hs
+    cases t with
+    | none => simp only [ExtR] at ht; simp [opick, ExtR, hs, ht]
+    | some b => simp only [ExtR] at ht; simpa [opick, ExtR, hs] using ht
+  | some a =>
+    simp only [ExtR] at hs
+    cases t with
+    | none => simp only [ExtR] at ht; simpa [opick, ExtR, ht] using hs
+    | some b => simp only [ExtR] at ht; simpa [opick, ExtR] using happ _ _ a b hs ht
+
+theorem ext_refines (pick : Q → Q → Q) (empty : XQ) (IsExt : List Q → Q → Prop)
+    (hred : ∀ xs m, reduceBy pick xs = some m → IsExt xs m)
+    (happ : ∀ l₁ l₂ a b, IsExt l₁ a → IsExt l₂ b → IsExt (l₁ ++ l₂) (pick a b)) :
+    ∀ (h : Hist (List Q)) (s : Option Q), eval (extImpl pick empty) h = .ok s → ExtR IsExt s (flatten h) := by
+  apply refines_rel (extImpl pick empty) (ExtR IsExt)
+  · simp [extImpl, additive, ExtR]
+  · intro s l b s' hs hu
+    simp only [extImpl, additive, extStat] at hu
+    cases hb : reduceBy pick b with
+    | none => simp [hb, bind, Except.bind] at hu
+    | some m =>
+      simp only [hb, bind, Except.bind, Except.ok.injEq] at hu
+      subst hu
+      apply extR_opick pick IsExt happ hs
+      simpa [ExtR] using hred b m hb
+  · intro s l ss ls s' hs hss hm
+    simp only [extImpl, additive, Except.ok.injEq] at hm
+    subst hm
+    induction hss generalizing s l with
+    | nil => simpa using hs
+    | cons h₁ _ ih =>
+      simp only [List.foldl_cons, ← List.append_assoc]
+      exact ih _ _ (extR_opick pick IsExt happ hs h₁)
+
+
 end TE.AggL
